@@ -51,6 +51,8 @@ func genReadPlan(r *Rand) ReadPlan {
 // waits for a token that can no longer come.
 type readBudget struct{}
 
+func (readBudget) String() string { return "readBudget" }
+
 const postEOFBudget = 10000
 
 type simFile struct {
@@ -69,6 +71,8 @@ type simFile struct {
 	// park, when set, is called at the beginning of every Read: the
 	// scheduler's hook ("deliver next fragment" is a scheduling point)
 	park func()
+	// parkClose, when set, is called at the beginning of Close (a scheduling point as well)
+	parkClose func()
 }
 
 func newSimFile(data []byte, plan ReadPlan) *simFile {
@@ -154,6 +158,9 @@ func (f *simFile) Read(p []byte) (int, error) {
 }
 
 func (f *simFile) Close() error {
+	if f.parkClose != nil {
+		f.parkClose()
+	}
 	f.closes++
 	if !f.closed {
 		f.closed = true
